@@ -115,6 +115,8 @@ def run_check(pid, tier, replay=None):
             violations.append(("process crashed while executing history %s: %s" % (cid, first), rp))
         harness_trouble = 0
         for r in results:
+            if len(violations) >= 30:
+                break
             ms = r.get("mismatches") or []
             hard = [m for m in ms if m["kind"] == "prop"]
             harness_trouble += sum(1 for m in ms if m["kind"] == "harness")
